@@ -2,21 +2,30 @@
 // endian), binary STL, SPZ, PTS or .splat file is rejected with an error, or decodes to
 // data wholly present in the prefix; the call terminates and never fabricates geometry.
 //
-// Level: fault enumeration. For every generated valid file the *whole* cut set is
-// enumerated (every byte position of binary data and textual headers, every position not
-// strictly inside a token of ASCII bodies). One case = one (file, contiguous range of the
-// cut set) chunk so that the work spreads over the worker processes.
+// Level: fault enumeration.
+//
+//	cuts         for every generated small valid file the WHOLE cut set is enumerated (every
+//	             byte position of binary data and textual headers, every position not strictly
+//	             inside a token of ASCII bodies). One case = one (file, contiguous range of the
+//	             cut set) chunk. Exhaustive over the stated cut set.
+//	large-files  a few big valid files per format (beyond every block size a decoder may work
+//	             in) with SAMPLED cuts: block boundaries ±1, 64 KiB multiples ±1, the header,
+//	             the last 64 bytes, random positions. Not exhaustive. Every decode runs in its
+//	             own goroutine under a state-based stall detector.
 package c14
 
 import (
 	"encoding/base64"
 	"fmt"
 	"hash/crc32"
+	"io"
+	"os"
 	"sort"
 	"strings"
 	"time"
 
 	"github.com/EliCDavis/polyform/modeling"
+	"polyverif/internal/c15/readers"
 	"polyverif/internal/ref"
 	"polyverif/internal/run"
 )
@@ -38,83 +47,175 @@ func chunksPer(tier string) int {
 func Spec() *run.Spec {
 	return &run.Spec{
 		ID: "C14", Level: "fault_enumeration", Exhaustive: true,
-		Rule: "Per run 128 (quick) / 1280 (thorough) valid files are generated, 8 / 80 of each of 16 kinds: PLY ascii / binary LE / binary BE " +
+		Rule: "Phase `cuts` (EXHAUSTIVE over the stated cut set): per run 128 (quick) / 1280 (thorough) valid files are generated, 8 / 80 of each of 16 kinds: PLY ascii / binary LE / binary BE " +
 			"× {cloud, mesh, mesh with per-face texcoords} written by polyform, PLY of the three encodings written by an independent writer " +
 			"(CRLF, comments, double/uchar/int properties, quads, uint/int list counts, texcoord lists, `element face 0`, whitespace runs), " +
-			"the splat-PLY export, binary STL (polyform / independent writer), SPZ v1 and v2 with SH degree 0–3 from the reference encoder at five gzip levels, " +
+			"the splat-PLY export, binary STL (polyform / independent writer), SPZ v1 and v2 with every SH degree 0–3 from the reference encoder, each degree both deflated and in stored (level 0) blocks, " +
 			"PTS with 3/4/7 columns (0, 1, n points) and .splat (reference encoder / polyform writer); in thorough 160 of the files are large (8–64 KiB). " +
 			"For each file EVERY cut position 0…len−1 of binary data and of textual headers, and every position not strictly inside a token of an ASCII body, " +
-			"is decoded through a plain io.Reader that hands over all it has; every cut of a file of at most 4096 bytes is decoded a second time with the prefix delivered in short reads (1–64 bytes). One case = one (file, contiguous 1/4 or 1/16 of its cut set) chunk; exhaustive over the stated cut set. " +
+			"is decoded through a plain io.Reader that hands over all it has; every cut of a file of at most 4096 bytes is decoded a second time through a rotating reader kind " +
+			"(short reads of 1–64 bytes, iotest.OneByteReader, HalfReader, DataErrReader — data together with io.EOF —, bufio, LimitReader). One case = one (file, contiguous 1/4 or 1/16 of its cut set) chunk. " +
+			"Phase `large-files` (SAMPLED, not exhaustive): 10 (quick) / 30 (thorough) big files — PLY LE / BE / ASCII with ≥ 65 537 and ≥ 131 074 vertices, STL > 8192 triangles, SPZ > 16 384 points, .splat > 4096 splats, PTS > 10 000 lines — " +
+			"each with 200 cuts (ASCII PLY: 64 in quick): 4096·k records ±1 byte, 64 KiB·k ±1, header positions, the last 64 bytes, random positions; reader kinds rotate; every decode runs in its own goroutine under a state-based stall detector. " +
+			"In both phases the complete file is also decoded through one of ten reader kinds (bytes.Reader, plain, OneByte, Half, DataErr, Limit, bufio, os.File, pipe, gzip) and must decode identically. " +
 			"A case is non-trivial when the complete file decoded to the expected element count, holds at least one record and at least one prefix was decoded; " +
 			"distinct = distinct (kind, structural descriptor, chunk) triples.",
 		Assumptions: []string{
 			"cuts strictly inside a numeric token of an ASCII body are not generated (a shorter number is a different valid number; excluded by the property)",
-			"the expected result of the only-framing-cut case is polyform's own decode of the complete file (correctness of complete decodes is C04/C08/C07/C15)",
+			"the expected result of the only-framing-cut case is polyform's own decode of the complete file through a plain reader (correctness of complete decodes is C04/C08/C07/C15)",
 			"a one-point PTS file cut after ≥3 complete columns of its only record is itself a complete valid PTS file with fewer columns: there the decoder may return the point with the attributes wholly present (checked bit-exact against the complete decode); every other PTS cut is judged strictly",
 			"all stored values are non-zero, so a zero-filled placeholder can never coincide with real data",
-			"termination: 10 CPU-seconds per chunk (normal cost ≤ ~1 s) decided by the framework's CPU watchdog, plus a reader that aborts a decode polling it 10000 times after EOF; no wall clock in any verdict",
+			"termination, spinning: 10 (cuts) / 60 (large-files) CPU-seconds per case decided by the framework's CPU watchdog, plus a reader that aborts a decode polling it 10000 times after EOF",
+			"termination, parked: in `large-files` a decode that has not returned while, in two goroutine dumps with no read of the input in between, every goroutine with a polyform frame is blocked in a channel / WaitGroup / mutex wait entered by polyform itself is a violation (state-based; timers only decide when to look); the framework's no-CPU-progress watchdog (StallViolation) is the backstop; no wall clock in any verdict",
 			"a deliberate panic(error) raised by a decoder on a truncated file is counted as a reported failure (outcome error-by-panic), a Go runtime panic is a violation",
+			"the io.Reader contract makes reader kinds indistinguishable for a correct decoder; a complete file that decodes differently through another reader kind is reported (the baseline of the prefix oracle would otherwise depend on the reader)",
 		},
 		MinNontrivial: map[string]int{"quick": 150, "thorough": 2000},
 		MinObserved: map[string]int64{
-			"files":                       100,
-			"cuts/ply-ascii":              1500,
-			"cuts/ply-le":                 1500,
-			"cuts/ply-be":                 1500,
-			"cuts/stl":                    500,
-			"cuts/spz":                    500,
-			"cuts/pts":                    150,
-			"cuts/splat":                  300,
-			"outcome/spz/error":           300,
-			"outcome/splat/partial-splat": 4,
+			"files":                              100,
+			"cuts/ply-ascii":                     1500,
+			"cuts/ply-le":                        1500,
+			"cuts/ply-be":                        1500,
+			"cuts/stl":                           500,
+			"cuts/spz":                           500,
+			"cuts/pts":                           150,
+			"cuts/splat":                         300,
+			"outcome/spz/error":                  300,
+			"outcome/splat/partial-splat":        4,
+			"cuts/spz/sh-degree-1":               300,
+			"cuts/spz/sh-degree-2":               300,
+			"cuts/spz/sh-degree-3":               300,
+			"spz_sh_degree_x_gzip":               8,
+			"truncated_decode_reader_kinds":      7,
+			"complete_decode_reader_kinds":       10,
+			"large/files":                        10,
+			"large/kinds":                        10,
+			"large/cuts/ply-le":                  300,
+			"large/cuts/ply-be":                  300,
+			"large/cuts/ply-ascii":               100,
+			"large/cuts/stl":                     150,
+			"large/cuts/spz":                     150,
+			"large/cuts/splat":                   150,
+			"large/cuts/pts":                     150,
+			"large/decodes_under_stall_detector": 1500,
 		},
-		Phases: []run.Phase{{
-			Name:       "cuts",
-			Cases:      func(tier string) int { return filesPer(tier) * chunksPer(tier) },
-			Run:        runChunk,
-			Batch:      8,
-			CPUBudgetS: 10,
-		}},
+		Phases: []run.Phase{
+			{Name: "cuts", Cases: func(tier string) int { return filesPer(tier) * chunksPer(tier) }, Run: runChunk, Batch: 8, CPUBudgetS: 10},
+			{Name: "large-files", Cases: func(tier string) int { return bigFilesPer(tier) * bigChunks }, Run: runBigChunk, Batch: 1, CPUBudgetS: 60, StallViolation: true},
+		},
 		Finalize: finalize,
 	}
 }
 
 type decoded struct {
-	mesh  *modeling.Mesh
-	err   error
-	panic *run.PanicInfo
-	rd    *cutReader
+	mesh     *modeling.Mesh
+	err      error
+	panic    *run.PanicInfo
+	rd       *cutReader // nil when the input did not go through a cutReader (complete decodes by kind)
+	parked   *parked    // non-nil: the decode never returned and everybody inside polyform is parked
+	replayTO bool       // replay only: no return within the replay's wall limit
 }
 
-func decode(c *run.Ctx, f *vfile, data []byte, shortReads []int) decoded {
-	c.SaveInput(data)
-	d := decoded{rd: &cutReader{data: data, chunks: shortReads}}
-	if c.Replay {
-		// A replay runs without the worker's CPU watchdog: so that re-executing a recorded
-		// non-terminating case reports instead of hanging, the decode gets a generous
-		// wall-clock limit here. Replays are a debugging aid; no verdict of a check run
-		// passes through this branch.
-		done := make(chan struct{})
-		go func() {
-			d.panic = run.Try(func() { d.mesh, d.err = f.dec(d.rd) })
-			close(done)
-		}()
-		select {
-		case <-done:
-		case <-time.After(20 * time.Second):
-			return decoded{rd: &cutReader{data: data}, panic: &run.PanicInfo{ErrorType: "c14.eofPoll", Value: "replay: the decoder did not return within 20 s of wall time", Stack: "(replay mode: goroutine left running)"}}
-		}
+func (d decoded) eofReads() int {
+	if d.rd == nil {
+		return 0
+	}
+	return d.rd.eofReads
+}
+
+// session is one case: a file, its complete decode, and the judging of prefix decodes.
+type session struct {
+	c           *run.Ctx
+	res         *run.Result
+	f           *vfile
+	fi          int
+	pre         string // counter prefix: "" (cuts) or "large/"
+	guarded     bool   // decodes run in their own goroutine under the stall detector
+	fullSnap    *ref.Snapshot
+	fullCorners *ref.CornerView
+	abandoned   bool // a decode goroutine is still out there: stop the case
+}
+
+const saveInputMax = 64 << 10
+
+// run executes one decode of the file's decoder over rd.
+func (s *session) run(rd io.Reader, cr *cutReader) decoded {
+	d := decoded{rd: cr}
+	if !s.guarded && !s.c.Replay {
+		d.panic = run.Try(func() { d.mesh, d.err = s.f.dec(rd) })
 		return d
 	}
-	d.panic = run.Try(func() { d.mesh, d.err = f.dec(d.rd) })
-	return d
+	// own goroutine: the case goroutine watches the state of the process
+	done := make(chan struct{})
+	var g decoded
+	go func() {
+		defer close(done)
+		g.panic = run.Try(func() { g.mesh, g.err = s.f.dec(rd) })
+	}()
+	clock := func() int64 { return 0 }
+	if cr != nil {
+		clock = func() int64 { return cr.reads.Load() }
+	}
+	verdict := make(chan *parked, 1)
+	if os.Getenv("C14_NO_STALL_DETECTOR") != "" {
+		// validation knob: leave a parked decode to the framework's no-CPU-progress watchdog
+		go func() { <-done; verdict <- nil }()
+	} else {
+		go func() { verdict <- waitOrParked(done, clock) }()
+	}
+	var limit <-chan time.Time
+	if s.c.Replay {
+		// A replay runs without the worker's watchdogs: so that re-executing a recorded
+		// non-terminating case reports instead of hanging it gets a generous wall limit.
+		// Replays are a debugging aid; no verdict of a check run passes through here.
+		limit = time.After(20 * time.Second)
+	}
+	select {
+	case p := <-verdict:
+		if p != nil {
+			s.abandoned = true
+			return decoded{rd: cr, parked: p}
+		}
+		g.rd = cr
+		s.res.Count("large/decodes_under_stall_detector", 1)
+		return g
+	case <-limit:
+		s.abandoned = true
+		return decoded{rd: cr, replayTO: true}
+	}
 }
 
-// smallFile: files up to this size get the second, short-read decode of every cut.
+// truncated decodes a prefix through a cutReader wrapped in the given reader kind.
+func (s *session) truncated(data []byte, kind string, cut int) decoded {
+	if len(data) <= saveInputMax {
+		s.c.SaveInput(data)
+	} else {
+		s.c.Note(fmt.Sprintf("decode of the first %d bytes through %s (file regenerable from seed and file index %d)", cut, kind, s.fi))
+	}
+	cr := &cutReader{data: data}
+	var rd io.Reader = cr
+	switch kind {
+	case "plain-cutReader":
+	case "short-reads":
+		k := cut % len(shortReadPattern)
+		cr.chunks = append(append([]int{}, shortReadPattern[k:]...), shortReadPattern[:k]...)
+	default:
+		rd = readers.Wrap(kind, cr)
+	}
+	return s.run(rd, cr)
+}
+
+// smallFile: files up to this size get the second decode of every cut.
 const smallFile = 4096
 
 // shortReadPattern is rotated by the cut position: the sizes of successive reads.
 var shortReadPattern = []int{1, 7, 3, 64, 2, 13, 5, 32}
+
+// secondPassKinds rotate over the cuts of a chunk.
+var secondPassKinds = []string{"short-reads", "OneByteReader", "HalfReader", "DataErrReader", "bufio", "LimitReader"}
+
+// bigFileKinds rotate over the sampled cuts of a big file.
+var bigFileKinds = []string{"plain-cutReader", "DataErrReader", "short-reads", "HalfReader", "bufio", "plain-cutReader", "LimitReader", "OneByteReader"}
 
 func eofBucket(n int) string {
 	switch {
@@ -128,32 +229,173 @@ func eofBucket(n int) string {
 	return ">100"
 }
 
+func (s *session) violate(class, input, detail string, w map[string]any) {
+	if w == nil {
+		w = map[string]any{}
+	}
+	w["kind"], w["desc"], w["file_index"], w["len"] = s.f.Kind, s.f.Desc, s.fi, len(s.f.Data)
+	if len(s.f.Data) <= 3000 {
+		w["file_base64"] = base64.StdEncoding.EncodeToString(s.f.Data)
+	}
+	s.res.Violate(class, s.f.Site, input, detail, w)
+}
+
+// complete decodes the whole file through the plain reader (the baseline), checks that
+// it is the valid file the generator meant, and decodes it once more through one of the
+// ten reader kinds. False: the case cannot go on.
+func (s *session) complete() bool {
+	c, res, f := s.c, s.res, s.f
+	if len(f.Data) <= saveInputMax {
+		c.SaveInput(f.Data)
+	}
+	cr := &cutReader{data: f.Data}
+	full := s.run(cr, cr)
+	switch {
+	case full.parked != nil || full.replayTO:
+		s.violate("stalled", f.Kind+" complete file", fmt.Sprintf("%s: the decode of the COMPLETE file of %d bytes never returned: %s", f.Kind, len(f.Data), stallText(full)), nil)
+		return false
+	case full.panic != nil:
+		res.Inconclusive = fmt.Sprintf("complete-file-not-decoded: %s panicked on the complete %s file: %s", f.Site, f.Kind, full.panic.Value)
+		return false
+	case full.err != nil || full.mesh == nil:
+		res.Inconclusive = fmt.Sprintf("complete-file-not-decoded: %s rejected the complete %s file: %v", f.Site, f.Kind, full.err)
+		return false
+	case full.mesh.PrimitiveCount() != f.WantPrims:
+		res.Inconclusive = fmt.Sprintf("complete-file-not-decoded: %s decoded the complete %s file to %d primitives, the file holds %d", f.Site, f.Kind, full.mesh.PrimitiveCount(), f.WantPrims)
+		return false
+	}
+	s.fullSnap = ref.Snap(*full.mesh)
+
+	kind := readers.Kinds[(c.Case+int(c.Seed))%len(readers.Kinds)]
+	scratch := ""
+	if kind == "os.File" {
+		scratch = c.ScratchDir()
+	}
+	c.Note(fmt.Sprintf("complete file of %d bytes through reader kind %s", len(f.Data), kind))
+	rd, release := readers.Open(kind, f.Data, scratch)
+	d := s.run(rd, nil)
+	if d.parked == nil && !d.replayTO {
+		release()
+	}
+	res.SetAdd("complete_decode_reader_kinds", kind)
+	res.Count("complete_decodes_by_reader_kind/"+f.Format, 1)
+	input := f.Kind + " complete file through " + kind
+	switch {
+	case d.parked != nil || d.replayTO:
+		s.violate("stalled", input, fmt.Sprintf("%s: the decode of the complete file of %d bytes through %s never returned: %s", f.Kind, len(f.Data), kind, stallText(d)), nil)
+		return false
+	case d.panic != nil:
+		s.violate("complete-decode-differs-by-reader-kind", input, fmt.Sprintf("%s, complete file of %d bytes: decodes through a plain reader, panics through %s: %s\n%s", f.Kind, len(f.Data), kind, d.panic.Value, d.panic.Stack), nil)
+	case d.err != nil || d.mesh == nil:
+		s.violate("complete-decode-differs-by-reader-kind", input, fmt.Sprintf("%s, complete file of %d bytes: decodes through a plain reader, is rejected through %s: %v", f.Kind, len(f.Data), kind, d.err), nil)
+	default:
+		if diff := s.fullSnap.Diff(ref.Snap(*d.mesh)); diff != "" {
+			s.violate("complete-decode-differs-by-reader-kind", input, fmt.Sprintf("%s, complete file of %d bytes: the decode through %s differs from the decode through a plain reader (plain → %s: %s); through %s: %s; plain: %s",
+				f.Kind, len(f.Data), kind, kind, diff, kind, describe(ref.Snap(*d.mesh)), describe(s.fullSnap)), nil)
+		}
+	}
+	return true
+}
+
+func stallText(d decoded) string {
+	if d.replayTO {
+		return "replay: no return within 20 s of wall time"
+	}
+	return fmt.Sprintf("%d goroutine(s) with polyform frames, every one of them parked in a wait entered by polyform (%s) in two goroutine dumps %v apart, the input reader not asked for anything in between; nobody is left to wake them\n%s",
+		d.parked.goroutines, strings.Join(d.parked.frames, ", "), stallRecheck, d.parked.dump)
+}
+
+// judge classifies one prefix decode and records a violation where the oracle is broken.
+// counter is the evidence bucket ("outcome/", "outcome-reader-kinds/"), how describes the reader.
+func (s *session) judge(cut int, d decoded, counter, how string) string {
+	res, f := s.res, s.f
+	region := f.region(cut)
+	res.Count(s.pre+"decodes", 1)
+	res.Count(s.pre+"decoded_bytes", int64(cut))
+	res.SetAdd(s.pre+"eof_reads_per_decode", eofBucket(d.eofReads()))
+	violate := func(class, detail string) {
+		res.Count(s.pre+"violating_decodes", 1)
+		s.violate(class, f.Kind+" cut in "+region,
+			fmt.Sprintf("%s, file of %d bytes cut at %d (region %s)%s: %s", f.Kind, len(f.Data), cut, region, how, detail),
+			map[string]any{"cut": cut, "region": region, "reader": how})
+	}
+	outcome := ""
+	switch {
+	case d.parked != nil || d.replayTO:
+		outcome = "VIOLATION-stalled"
+		violate("stalled", "the decode never returned: "+stallText(d))
+	case d.panic != nil && d.panic.ErrorType == "c14.eofPoll":
+		outcome = "VIOLATION-non-terminating"
+		violate("non-terminating", fmt.Sprintf("the decoder read the input %d times after it had reported EOF and had not returned (aborted by the monitor)\n%s", d.eofReads(), d.panic.Stack))
+	case d.panic != nil && d.panic.Runtime:
+		outcome = "VIOLATION-runtime-panic"
+		violate("runtime-panic", fmt.Sprintf("Go runtime panic instead of an error: %s at %s\n%s", d.panic.Value, d.panic.Site, d.panic.Stack))
+	case d.panic != nil:
+		outcome = "error-by-panic"
+	case d.err != nil:
+		outcome = "error"
+		if d.mesh != nil && f.Splat {
+			res.Count(s.pre+"splat_error_with_partial_cloud", 1)
+		}
+	case d.mesh == nil:
+		outcome = "VIOLATION-nil"
+		violate("nil-result-no-error", "the decoder returned neither a mesh nor an error")
+	case f.Splat:
+		want := cut / 32
+		if diff := splatPrefixDiff(ref.Snap(*d.mesh), s.fullSnap, want); diff != "" {
+			outcome = "VIOLATION-splat"
+			violate("splat-not-record-prefix", fmt.Sprintf("no error, but the result is not exactly the first ⌊%d/32⌋ = %d splats of the file: %s", cut, want, diff))
+		} else {
+			outcome = "partial-splat"
+		}
+	default:
+		got := ref.Snap(*d.mesh)
+		diff := s.fullSnap.Diff(got)
+		if diff != "" {
+			if s.fullCorners == nil {
+				s.fullCorners = s.fullSnap.Corners()
+			}
+			// The corner view (DESIGN §2) is blind when the complete mesh has no primitive
+			// (`element face 0`): there the whole snapshot must agree.
+			if len(s.fullCorners.Prims) > 0 && s.fullCorners.EqualExact(got.Corners()) == "" {
+				res.Count(s.pre+"complete_by_corner_view_only", 1)
+				diff = ""
+			}
+		}
+		switch {
+		case diff == "":
+			outcome = "complete"
+			res.SetAdd(s.pre+"complete_tail_bytes_missing/"+f.Format, fmt.Sprint(len(f.Data)-cut))
+		case f.PTS1 != nil && len(f.PTS1.colEnd) >= 3 && cut >= f.PTS1.colEnd[2] && attrSubsetEqual(got, s.fullSnap) == "":
+			outcome = "pts-single-record-prefix"
+		default:
+			outcome = "VIOLATION-accepted"
+			violate("truncation-accepted", fmt.Sprintf("no error, and the returned mesh is not the decode of the complete file (complete → returned: %s); returned %s; complete %s",
+				diff, describe(got), describe(s.fullSnap)))
+		}
+	}
+	res.Count(s.pre+counter+f.Format+"/"+outcome, 1)
+	return outcome
+}
+
 func runChunk(c *run.Ctx) (res run.Result) {
 	K := chunksPer(c.Tier)
 	fi, ck := c.Case/K, c.Case%K
 	f := buildFile(c.Seed, fi, c.Tier)
+	s := &session{c: c, res: &res, f: f, fi: fi}
 	res.Sig = fmt.Sprintf("%s|%s|chunk%d/%d", f.Kind, f.Desc, ck, K)
 	res.SetAdd("files", fmt.Sprintf("%d:%s", fi, f.Kind))
 	res.SetAdd("files/"+f.Format, fmt.Sprint(fi))
 	res.SetAdd("kinds", f.Kind)
 	res.SetAdd("file_digests", fmt.Sprintf("%d:%08x", fi, crc32.ChecksumIEEE(f.Data)))
+	if f.SPZDeg >= 0 {
+		res.SetAdd("spz_sh_degree_x_gzip", fmt.Sprintf("sh%d/%s", f.SPZDeg, f.SPZGz))
+	}
 
 	c.Note(fmt.Sprintf("file %d %s %s len=%d chunk %d/%d: complete decode", fi, f.Kind, f.Desc, len(f.Data), ck, K))
-	full := decode(c, f, f.Data, nil)
-	switch {
-	case full.panic != nil:
-		res.Inconclusive = fmt.Sprintf("complete-file-not-decoded: %s panicked on the complete %s file: %s", f.Site, f.Kind, full.panic.Value)
-		return
-	case full.err != nil || full.mesh == nil:
-		res.Inconclusive = fmt.Sprintf("complete-file-not-decoded: %s rejected the complete %s file: %v", f.Site, f.Kind, full.err)
-		return
-	case full.mesh.PrimitiveCount() != f.WantPrims:
-		res.Inconclusive = fmt.Sprintf("complete-file-not-decoded: %s decoded the complete %s file to %d primitives, the file holds %d", f.Site, f.Kind, full.mesh.PrimitiveCount(), f.WantPrims)
+	if !s.complete() {
 		return
 	}
-	fullSnap := ref.Snap(*full.mesh)
-	var fullCorners *ref.CornerView
-
 	cuts := f.cuts()
 	if ck == 0 {
 		res.Count("cutset/"+f.Format, int64(len(cuts)))
@@ -161,205 +403,46 @@ func runChunk(c *run.Ctx) (res run.Result) {
 	}
 	lo, hi := ck*len(cuts)/K, (ck+1)*len(cuts)/K
 	outcomes := map[string]int{}
-	abandoned := false
 	c.Note(fmt.Sprintf("file %d %s len=%d: cuts %d…%d of the cut set (%d positions)", fi, f.Kind, len(f.Data), lo, hi, len(cuts)))
-	for _, cut := range cuts[lo:hi] {
+	for i, cut := range cuts[lo:hi] {
 		region := f.region(cut)
 		res.Count("cuts/"+f.Format, 1)
 		res.Count("cuts/"+f.Format+"/"+region, 1)
-		// Every cut is decoded through a reader that hands over all it has; files up to
-		// smallFile bytes are decoded a second time through a reader that delivers the same
-		// prefix in short reads (an interrupted download arrives in pieces) — the io.Reader
-		// contract makes the two indistinguishable for a correct decoder.
-		passes := 1
-		if len(f.Data) <= smallFile {
-			passes = 2
+		if f.SPZDeg >= 0 {
+			res.Count(fmt.Sprintf("cuts/spz/sh-degree-%d", f.SPZDeg), 1)
+			if f.SPZGz == "stored" {
+				res.Count(fmt.Sprintf("cuts/spz/sh-degree-%d/stored-blocks", f.SPZDeg), 1)
+			}
 		}
-		for pass := 0; pass < passes && !abandoned; pass++ {
-			var shortReads []int
-			counter, how := "outcome/", ""
-			if pass == 1 {
-				shortReads = append(shortReadPattern[cut%len(shortReadPattern):], shortReadPattern[:cut%len(shortReadPattern)]...)
-				counter, how = "outcome-short-reads/", " delivered in short reads of 1–64 bytes"
-				res.Count("cuts_also_decoded_with_short_reads/"+f.Format, 1)
-			}
-			d := decode(c, f, f.Data[:cut], shortReads)
-			res.Count("decodes", 1)
-			res.Count("decoded_bytes", int64(cut))
-			res.SetAdd("eof_reads_per_decode", eofBucket(d.rd.eofReads))
-			outcome := ""
-			violate := func(class, detail string) {
-				res.Count("violating_decodes", 1)
-				w := map[string]any{"kind": f.Kind, "desc": f.Desc, "file_index": fi, "len": len(f.Data), "cut": cut, "region": region, "short_reads": shortReads}
-				if len(f.Data) <= 3000 {
-					w["file_base64"] = base64.StdEncoding.EncodeToString(f.Data)
-				}
-				res.Violate(class, f.Site, f.Kind+" cut in "+region,
-					fmt.Sprintf("%s, file of %d bytes cut at %d (region %s)%s: %s", f.Kind, len(f.Data), cut, region, how, detail), w)
-			}
-			switch {
-			case d.panic != nil && d.panic.ErrorType == "c14.eofPoll":
-				outcome = "VIOLATION-non-terminating"
-				if d.rd.eofReads > maxEOFReads {
-					violate("non-terminating", fmt.Sprintf("the decoder read the input %d times after it had reported EOF and had not returned (aborted by the monitor)\n%s", d.rd.eofReads, d.panic.Stack))
-				} else {
-					violate("non-terminating", d.panic.Value)
-					abandoned = true // replay only: a decode is still spinning in its goroutine
-				}
-			case d.panic != nil && d.panic.Runtime:
-				outcome = "VIOLATION-runtime-panic"
-				violate("runtime-panic", fmt.Sprintf("Go runtime panic instead of an error: %s at %s\n%s", d.panic.Value, d.panic.Site, d.panic.Stack))
-			case d.panic != nil:
-				outcome = "error-by-panic"
-			case d.err != nil:
-				outcome = "error"
-				if d.mesh != nil && f.Splat && pass == 0 {
-					res.Count("splat_error_with_partial_cloud", 1)
-				}
-			case d.mesh == nil:
-				outcome = "VIOLATION-nil"
-				violate("nil-result-no-error", "the decoder returned neither a mesh nor an error")
-			case f.Splat:
-				want := cut / 32
-				if diff := splatPrefixDiff(ref.Snap(*d.mesh), fullSnap, want); diff != "" {
-					outcome = "VIOLATION-splat"
-					violate("splat-not-record-prefix", fmt.Sprintf("no error, but the result is not exactly the first ⌊%d/32⌋ = %d splats of the file: %s", cut, want, diff))
-				} else {
-					outcome = "partial-splat"
-				}
-			default:
-				got := ref.Snap(*d.mesh)
-				diff := fullSnap.Diff(got)
-				if diff != "" {
-					if fullCorners == nil {
-						fullCorners = fullSnap.Corners()
-					}
-					// The corner view (DESIGN §2) is blind when the complete mesh has no primitive
-					// (`element face 0`): there the whole snapshot must agree.
-					if len(fullCorners.Prims) > 0 && fullCorners.EqualExact(got.Corners()) == "" {
-						res.Count("complete_by_corner_view_only", 1)
-						diff = ""
-					}
-				}
-				switch {
-				case diff == "":
-					outcome = "complete"
-					res.SetAdd("complete_tail_bytes_missing/"+f.Format, fmt.Sprint(len(f.Data)-cut))
-				case f.PTS1 != nil && len(f.PTS1.colEnd) >= 3 && cut >= f.PTS1.colEnd[2] && attrSubsetEqual(got, fullSnap) == "":
-					outcome = "pts-single-record-prefix"
-				default:
-					outcome = "VIOLATION-accepted"
-					violate("truncation-accepted", fmt.Sprintf("no error, and the returned mesh is not the decode of the complete file (complete → returned: %s); returned %s; complete %s",
-						diff, describe(got), describe(fullSnap)))
-				}
-			}
-			if pass == 0 {
-				outcomes[outcome]++
-			}
-			res.Count(counter+f.Format+"/"+outcome, 1)
+		res.SetAdd("truncated_decode_reader_kinds", "plain-cutReader")
+		outcomes[s.judge(cut, s.truncated(f.Data[:cut], "plain-cutReader", cut), "outcome/", "")]++
+		// Files up to smallFile bytes: every cut a second time through another reader kind —
+		// an interrupted download arrives in pieces, and the last piece may come with io.EOF.
+		if len(f.Data) <= smallFile && !s.abandoned {
+			kind := secondPassKinds[(lo+i)%len(secondPassKinds)]
+			res.SetAdd("truncated_decode_reader_kinds", kind)
+			res.Count("cuts_also_decoded_through_another_reader_kind/"+f.Format, 1)
+			s.judge(cut, s.truncated(f.Data[:cut], kind, cut), "outcome-reader-kinds/", " read through "+kind)
 		}
-		if abandoned {
+		if s.abandoned {
 			break
 		}
 	}
 	res.Nontrivial = f.Records > 0 && hi > lo
 	if hi > lo && (ck == 0 || len(res.Violations) > 0) {
-		var os []string
-		for k, v := range outcomes {
-			os = append(os, fmt.Sprintf("%s=%d", k, v))
-		}
-		sort.Strings(os)
 		res.Sample = map[string]any{"file": fi, "kind": f.Kind, "desc": f.Desc, "bytes": len(f.Data), "cutset": len(cuts),
-			"chunk": fmt.Sprintf("%d/%d: cut positions %d…%d", ck, K, cuts[lo], cuts[hi-1]), "outcomes": strings.Join(os, " ")}
+			"chunk": fmt.Sprintf("%d/%d: cut positions %d…%d", ck, K, cuts[lo], cuts[hi-1]), "outcomes": outcomeText(outcomes)}
 	}
 	return
 }
 
-// describe summarises a decoded mesh for a violation message: sizes and how many
-// vertices are all-zero (placeholders).
-func describe(s *ref.Snapshot) string {
-	n, zero := 0, 0
-	if p, ok := s.Data["3:"+modeling.PositionAttribute]; ok {
-		n = len(p) / 3
-		for i := 0; i < n; i++ {
-			if p[i*3] == 0 && p[i*3+1] == 0 && p[i*3+2] == 0 {
-				zero++
-			}
-		}
+func outcomeText(m map[string]int) string {
+	var os []string
+	for k, v := range m {
+		os = append(os, fmt.Sprintf("%s=%d", k, v))
 	}
-	return fmt.Sprintf("{topology %v, %d indices, %d positions of which %d are (0,0,0), attributes %v}", s.Topology, len(s.Indices), n, zero, s.Names)
-}
-
-// splatPrefixDiff: got must consist of exactly the first k splats of full.
-func splatPrefixDiff(got, full *ref.Snapshot, k int) string {
-	if len(got.Indices) != k {
-		return fmt.Sprintf("%d splats returned", len(got.Indices))
-	}
-	for i, v := range got.Indices {
-		if v != i {
-			return fmt.Sprintf("index[%d]=%d", i, v)
-		}
-	}
-	if k == 0 { // an empty cloud may or may not list its (empty) attributes
-		for _, name := range got.Names {
-			if len(got.Data[name]) != 0 {
-				return fmt.Sprintf("attribute %s has %d values in a cloud without splats", name, len(got.Data[name]))
-			}
-		}
-		return ""
-	}
-	if strings.Join(got.Names, "|") != strings.Join(full.Names, "|") {
-		return fmt.Sprintf("attributes %v, complete decode has %v", got.Names, full.Names)
-	}
-	for _, name := range full.Names {
-		a := int(name[0] - '0')
-		g, w := got.Data[name], full.Data[name]
-		if len(g) != k*a {
-			return fmt.Sprintf("attribute %s has %d entries", name, len(g)/a)
-		}
-		for i := range g {
-			if !sameBits(g[i], w[i]) {
-				return fmt.Sprintf("attribute %s of splat %d component %d is %v, the file holds %v", name, i/a, i%a, g[i], w[i])
-			}
-		}
-	}
-	return ""
-}
-
-// attrSubsetEqual: same topology and indices, and every attribute of got is an attribute
-// of full with bit-identical values ("" when so).
-func attrSubsetEqual(got, full *ref.Snapshot) string {
-	if got.Topology != full.Topology || len(got.Indices) != len(full.Indices) {
-		return "topology / index count differ"
-	}
-	for i := range got.Indices {
-		if got.Indices[i] != full.Indices[i] {
-			return "indices differ"
-		}
-	}
-	if len(got.Names) == 0 {
-		return "no attributes"
-	}
-	for _, name := range got.Names {
-		w, ok := full.Data[name]
-		g := got.Data[name]
-		if !ok || len(w) != len(g) {
-			return "attribute " + name + " not in the complete decode"
-		}
-		for i := range g {
-			if !sameBits(g[i], w[i]) {
-				return "attribute " + name + " differs"
-			}
-		}
-	}
-	return ""
-}
-
-func sameBits(a, b float64) bool {
-	if a != a || b != b {
-		return a != a && b != b
-	}
-	return a == b
+	sort.Strings(os)
+	return strings.Join(os, " ")
 }
 
 // finalize adds the exhaustiveness account: positions decoded vs. size of the cut sets.
@@ -381,4 +464,8 @@ func finalize(a *run.Aggregate) {
 	// every chunk regenerates its file: the chunks partition one cut set only if the bytes are the same each time
 	a.Extra["files_regenerated_identically_in_every_chunk"] = len(a.Sets["file_digests"]) == len(a.Sets["files"])
 	a.Extra["every_cut_of_every_file_decoded"] = complete
+	a.Extra["exhaustive_per_phase"] = map[string]any{
+		"cuts":        "true — every position of the stated cut set of every generated file (see cut_set_account)",
+		"large-files": "false — sampled cuts: block boundaries ±1, 64 KiB multiples ±1, header, last 64 bytes, random (see large/… counters)",
+	}
 }
